@@ -25,9 +25,11 @@ Ctx == [x |-> S(<<"M1">>),
         l |-> L(<<S(<<"M3">>), S(<<"a">>)>>),
         st |-> V("struct", 0, <<>>, <<P(S(<<"F">>), S(<<"M4">>))>>),
         sg |-> V("stringer", 0, <<"M1", "b">>, <<>>),
+        \* (n = 1) a Stringer that answers differently from call to call: the text that is checked must be the text that is written
+        fs |-> V("stringer", 1, <<"M1", "b">>, <<>>),
         mk |-> M(<<P(S(<<"M2">>), I(1))>>)]
 
-Sources == << Var(<<"x">>), Var(<<"m", "k">>), Var(<<"l", "0">>), Var(<<"st", "F">>), Var(<<"sg">>) >>
+Sources == << Var(<<"x">>), Var(<<"m", "k">>), Var(<<"l", "0">>), Var(<<"st", "F">>), Var(<<"sg">>), Var(<<"fs">>) >>
 
 Files == [inc |-> <<T(<<"i:">>), Out(Var(<<"q">>))>>]
 
